@@ -16,8 +16,8 @@ static void flush_line(void) { fwrite(LB, 1, LN, stdout); LN = 0; }
 #define U(p) ((unsigned long long)(uintptr_t)(p))
 
 /* ---- callbacks (the model uses the same functions: cmp_val, cmp_key, pred_even, cp_1000) */
-static int cmp_val(const void *a, const void *b) { uintptr_t x = (uintptr_t)a, y = (uintptr_t)b; return x < y ? -1 : x > y ? 1 : 0; }
-static int cmp_key(const void *a, const void *b) { uintptr_t x = (uintptr_t)a / 16, y = (uintptr_t)b / 16; return x < y ? -1 : x > y ? 1 : 0; }
+static int cmp_val(const void *a, const void *b) { uintptr_t x = (uintptr_t)a, y = (uintptr_t)b; return x < y ? -3 : x > y ? 5 : 0; }   /* legal comparators need not return -1/0/1 */
+static int cmp_key(const void *a, const void *b) { uintptr_t x = (uintptr_t)a / 16, y = (uintptr_t)b / 16; return x < y ? -3 : x > y ? 5 : 0; }   /* legal comparators need not return -1/0/1 */
 static int qcmp_val(const void *a, const void *b) { return cmp_val(*(void* const*)a, *(void* const*)b); }
 static bool pred_even(const void *a) { return ((uintptr_t)a & 1) == 0; }
 static void *cp_1000(void *a) { return V((uintptr_t)a + 1000); }
